@@ -75,6 +75,23 @@ NEEDS = {
  "C07e-register-dedups-per-accumulator": "two capture elements of one selector designating the same variable of the same call (two aliases, named + generic tag capture, two sub-selectors on one function)",
  "C09e-sibling-selectors-pruned-on-entry": "sibling call patterns sharing one accumulator (driver(gen(a), leaf(!x))), one of them a generator suspended while the driver calls the other",
  "C14e-resolver-caches-reference-code": "the same reference string resolved twice with the function's probe state different between the two resolutions",
+ "C01f-index-inlined-when-it-has-no-call": "a subscript store on an instrumented name whose index has an effect but contains no call (walrus, property read)",
+ "C02f-capture-snapshot-aliases-lists": "raw=True events kept and read after a later binding of the same variable",
+ "C03f-hasval-ignores-nested-calls": "a value / receiver condition only on an inner call of a chain whose outermost call has none",
+ "C04f-hasval-ignores-nested-calls": "an override attached to a selector whose only value condition sits on an inner call",
+ "C05f-nonlifo-exit-by-selector-set": "two probes sharing a (partially) identical selector, deactivated in non-LIFO order",
+ "C06f-with-split-visits-inner-twice": "return / loop / yield inside a with statement with several items whose non-last item has a target",
+ "C07f-autotool-rollback-untools-unpushed": "a selector refused part-way (_tooler TypeError on a non-last function) while a later function of the path is tooled by another probe",
+ "C09f-plus-mutates-empty-collection": "an overlay entered while the current collection is the EMPTY collection of a call that started under no overlay (suspended generator)",
+ "C10f-install-tooling-undoes-refused-twice": "a probe refused by verify followed by a valid probe on the very same function object",
+ "C11f-install-tooling-undoes-refused-twice": "a tag selector refused (no binding carries the tag) followed by a valid tag selector on the same function",
+ "C13f-autotool-rollback-by-walking-the-selector": "Cls.meth > v and obj.meth > v active, then a third probe whose early path element cannot be tooled is refused",
+ "C14f-refstring-removes-first-locals-only": "a function (or method of a local class) nested two or more functions deep",
+ "C15f-nested-imm-prepends-child": "the left side of > is a call that already has a nested-call operand and what follows > is a call",
+ "C16f-override-none-sentinel": "an overridable probe supplying the constant None for a declared-only variable",
+ "C17f-exit-catches-only-empty-sequence": "a stage attached earlier raises something other than 'sequence contains no elements' at completion, with later stages attached",
+ "C18f-focus-reads-all-tags-default": "a selector with a second-focus mark (!!) and no first, with probe_type='immediate'",
+ "C12f-vcall-keeps-last-keyword": "a predicate written in the selector string with two or more keyword arguments (every(3, start=1, end=8))",
  "C18d-expect-message-encode": "a parenthesised comma sequence where a single variable / call is required ((a,b):T, (a,b) > x)",
 }
 rows = []
